@@ -35,9 +35,9 @@ Definition runN (behs : list beh) (sched : list gchoice) : gst := grun P C sched
    programs is closed under every step and satisfies the six state facts and the measure
    fact of Proofs/SubprocLocal.v.  A moved tx.close(), a dropped join()/rx.close(), a
    narrowed `except`, a send before the exception test ... make this evaluate to false.
-   (The evaluation itself - vm_compute, about 10 s - lives in Proofs/SubprocCheck.v, which
+   (The evaluation itself - vm_compute, about 20 s - lives in Proofs/SubprocCheck.v, which
    `make` rebuilds whenever Gen/Subproc.v changes.) *)
-Theorem C17_programs_check : check_all P C = true.
+Theorem C17_programs_check : check_all P C false = true.
 Proof. exact programs_check. Qed.
 Print Assumptions C17_programs_check.
 
@@ -52,14 +52,19 @@ Print Assumptions C17_wrapper_shape.
 (* ---- one invocation ------------------------------------------------------------------------ *)
 (* FULL STATEMENT (refuted below, kept visible):
      forall b sched, p_done (run1 b sched) = true -> spec_ok b (run1 b sched) = true.
-   It fails in exactly one region: the callee RETURNS an object that is itself a
-   SubprocessError; the parent cannot tell it from the child's error envelope and raises its
-   `.exception` attribute instead of returning the object. *)
+   It fails in two regions.
+   (K1) the callee RETURNS an object that is itself a SubprocessError; the parent cannot tell
+        it from the child's error envelope and raises its `.exception` attribute instead of
+        returning the object (C17_single_faithful_refuted).
+   (K2) the payload pickles in the child but UNPICKLING it in the parent raises (an exception
+        class whose __init__ needs two arguments, a __reduce__ callable that raises): rx.recv()
+        raises a class the try statement does not catch, process.join() and rx.close() are
+        skipped (C17_no_fd_no_zombie_on_exit_refuted). *)
 Theorem C17_single_faithful_refuted :
   exists b sched, callee_reports b = true /\ b_out b = COk /\
     p_stat (ps (run1 b sched)) = PSDone (FRaise XRetAttr) /\ spec_ok b (run1 b sched) = false.
 Proof.
-  exists (mk_beh COk [] false true false true).
+  exists (mk_beh COk [] false true false true false).
   exists (LParent :: flat_map (fun _ => [LParent; LChild]) (seq 0 40)).
   vm_compute. repeat split; reflexivity.
 Qed.
@@ -70,10 +75,12 @@ Print Assumptions C17_single_faithful_refuted.
    without reporting, an exception that does not pretend to be the callee's), and no pipe
    end, reader callback, running or un-reaped child is left. *)
 Theorem C17_single_spec_partial : forall b sched,
-  returns_envelope b = false -> p_done (run1 b sched) = true -> spec_ok b (run1 b sched) = true.
+  returns_envelope b = false -> b_unp b = false ->
+  p_done (run1 b sched) = true -> spec_ok b (run1 b sched) = true.
 Proof.
-  intros b sched He Hd. apply (done_spec P C C17_programs_check); auto.
-  apply lrun_reach. constructor.
+  intros b sched He Hu Hd. apply (done_spec P C false C17_programs_check); auto.
+  - apply lrun_reach. constructor.
+  - now rewrite Hu.
 Qed.
 Print Assumptions C17_single_spec_partial.
 
@@ -86,7 +93,7 @@ Theorem C17_single_faithful_partial : forall b sched f,
   | _ => if b_isa b StopIterationC then f = FRaise (XCls RuntimeErrorC) else f = FRaise XCallee
   end.
 Proof.
-  intros b sched f. apply (faithful_exact P C programs_check). apply lrun_reach. constructor.
+  intros b sched f. apply (faithful_exact P C false programs_check). apply lrun_reach. constructor.
 Qed.
 Print Assumptions C17_single_faithful_partial.
 
@@ -97,7 +104,7 @@ Theorem C17_single_child_death_outcome : forall b sched f,
   p_stat (ps (run1 b sched)) = PSDone f ->
   model_final b f = true \/ (c_killed (cs (run1 b sched)) = true /\ is_cpe f = true).
 Proof.
-  intros b sched f. apply (death_outcome P C programs_check). apply lrun_reach. constructor.
+  intros b sched f. apply (death_outcome P C false programs_check). apply lrun_reach. constructor.
 Qed.
 Print Assumptions C17_single_child_death_outcome.
 
@@ -111,20 +118,62 @@ Theorem C17_single_terminates_all_crash_points : forall b sched,
 Proof.
   intros b sched. pose proof (lrun_reach P C b sched linit (lr_init P C b)) as Hr.
   split; [|split].
-  - apply (effective_bounded P C C17_programs_check). constructor.
-  - apply (never_blocked_forever P C C17_programs_check). exact Hr.
-  - exact (finish_after P C programs_check b sched).
+  - apply (effective_bounded P C false C17_programs_check). constructor.
+  - apply (never_blocked_forever P C false C17_programs_check). exact Hr.
+  - exact (finish_after P C false programs_check b sched).
 Qed.
 Print Assumptions C17_single_terminates_all_crash_points.
 
-(* no descriptor, reader callback, live or un-reaped child on ANY exit path (return or raise,
-   also in the refuted region) *)
-Theorem C17_no_fd_no_zombie_on_exit : forall b sched,
-  p_done (run1 b sched) = true -> clean_exit (run1 b sched) = true.
+(* FULL STATEMENT (refuted, kept visible): no descriptor, reader callback, live or un-reaped
+   child on ANY exit path:
+     forall b sched, p_done (run1 b sched) = true -> clean_exit (run1 b sched) = true.
+   Witness (K2): a returning callee whose result cannot be unpickled in the parent: the await
+   raises, the parent still holds the read end, the child is an un-reaped zombie. *)
+Theorem C17_no_fd_no_zombie_on_exit_refuted :
+  exists b sched, let s := run1 b sched in
+    p_stat (ps s) = PSDone (FRaise (XCls UnpickleErrC)) /\ clean_exit s = false /\
+    e_rx (p_ends (ps s)) = true /\ zombie (c_stat (cs s)) (p_joined (ps s)) = true.
 Proof.
-  intros b sched Hd. apply (done_clean P C C17_programs_check b); auto. apply lrun_reach. constructor.
+  exists (mk_beh COk [] false true false false true).
+  exists (LParent :: flat_map (fun _ => [LParent; LChild]) (seq 0 40)).
+  vm_compute. repeat split; reflexivity.
 Qed.
-Print Assumptions C17_no_fd_no_zombie_on_exit.
+Print Assumptions C17_no_fd_no_zombie_on_exit_refuted.
+
+(* ... on every exit path (return or raise, also in region K1) whenever unpickling in the
+   parent succeeds - the narrowest guard: it is a property of the transferred object alone *)
+Theorem C17_no_fd_no_zombie_on_exit_partial : forall b sched,
+  b_unp b = false -> p_done (run1 b sched) = true -> clean_exit (run1 b sched) = true.
+Proof.
+  intros b sched Hu Hd. apply (done_clean P C false C17_programs_check b); auto.
+  - apply lrun_reach. constructor.
+  - now rewrite Hu.
+Qed.
+Print Assumptions C17_no_fd_no_zombie_on_exit_partial.
+
+(* the outcome itself needs no such guard: also when unpickling raises, the awaiting task gets
+   an exception that does not pretend to be the callee's outcome *)
+Theorem C17_single_outcome_partial : forall b sched f,
+  returns_envelope b = false -> p_stat (ps (run1 b sched)) = PSDone f ->
+  outcome_ok b (c_killed (cs (run1 b sched))) f = true.
+Proof.
+  intros b sched f He Hf. apply (done_outcome P C false C17_programs_check); auto.
+  apply lrun_reach. constructor.
+Qed.
+Print Assumptions C17_single_outcome_partial.
+
+(* the repair is known: ANY parent program that passes the strict sweep (nothing left behind
+   also when unpickling raises) satisfies the full statement; the current program with
+   join()/rx.close() moved into a `finally` of the recv try statement does (ex_protected) *)
+Theorem C17_no_fd_no_zombie_on_exit_if_protected : forall P' b sched,
+  check_all P' C true = true ->
+  p_done (lrun P' C b sched linit) = true -> clean_exit (lrun P' C b sched linit) = true.
+Proof.
+  intros P' b sched Hc Hd. apply (done_clean P' C true Hc b); auto.
+  - apply lrun_reach. constructor.
+  - now rewrite andb_false_r.
+Qed.
+Print Assumptions C17_no_fd_no_zombie_on_exit_if_protected.
 
 (* non-blocking, as far as the model can say it: whenever the parent coroutine sits in a
    synchronous call that cannot return yet (recv / join), the callee is no longer computing;
@@ -132,7 +181,7 @@ Print Assumptions C17_no_fd_no_zombie_on_exit.
 Theorem C17_single_nonblocking : forall b sched,
   sync_blocked P C b (run1 b sched) = true -> callee_pending C (run1 b sched) = false.
 Proof.
-  intros b sched. apply (nonblocking P C C17_programs_check). apply lrun_reach. constructor.
+  intros b sched. apply (nonblocking P C false C17_programs_check). apply lrun_reach. constructor.
 Qed.
 Print Assumptions C17_single_nonblocking.
 
@@ -148,10 +197,10 @@ Theorem C17_noninterference_N : forall behs sched i v,
 Proof.
   intros behs sched i v Hv.
   pose proof (grun_reach P C behs sched (ginit behs) (gr_init P C behs)) as Hr.
-  destruct (projection P C C17_programs_check behs _ i v Hr Hv) as [Hb Hl].
+  destruct (projection P C false C17_programs_check behs _ i v Hr Hv) as [Hb Hl].
   split; [|split].
   - exact Hb.
-  - apply (no_foreign_writer P C C17_programs_check behs). exact Hr.
+  - apply (no_foreign_writer P C false C17_programs_check behs). exact Hr.
   - destruct (reach_lrun P C (g_beh v) (g_loc v) Hl) as [ls Hls]. exists ls. now rewrite <- Hls.
 Qed.
 Print Assumptions C17_noninterference_N.
@@ -160,13 +209,13 @@ Print Assumptions C17_noninterference_N.
    specification relative to the i-th callee, whatever the others do *)
 Theorem C17_own_result_N_partial : forall behs sched i v b,
   nth_error (g_invs (runN behs sched)) i = Some v -> nth_error behs i = Some b ->
-  returns_envelope b = false -> p_done (g_loc v) = true -> spec_ok b (g_loc v) = true.
+  returns_envelope b = false -> b_unp b = false -> p_done (g_loc v) = true -> spec_ok b (g_loc v) = true.
 Proof.
-  intros behs sched i v b Hv Hb He Hd.
+  intros behs sched i v b Hv Hb He Hu Hd.
   pose proof (grun_reach P C behs sched (ginit behs) (gr_init P C behs)) as Hr.
-  destruct (projection P C C17_programs_check behs _ i v Hr Hv) as [Hb' Hl].
+  destruct (projection P C false C17_programs_check behs _ i v Hr Hv) as [Hb' Hl].
   rewrite Hb in Hb'. inversion Hb'; subst b.
-  apply (done_spec P C C17_programs_check); auto.
+  apply (done_spec P C false C17_programs_check); auto. now rewrite Hu.
 Qed.
 Print Assumptions C17_own_result_N_partial.
 
@@ -180,23 +229,25 @@ Proof.
   intros behs sched.
   pose proof (grun_reach P C behs sched (ginit behs) (gr_init P C behs)) as Hr.
   split; [|split].
-  - rewrite <- (gmeasure_init P C). apply (geffective_bounded P C C17_programs_check behs). constructor.
-  - apply (never_blocked_forever_global P C C17_programs_check behs). exact Hr.
-  - destruct (can_finish_global P C C17_programs_check behs _ _ Hr (le_n _)) as [ext [_ Hd]].
+  - rewrite <- (gmeasure_init P C). apply (geffective_bounded P C false C17_programs_check behs). constructor.
+  - apply (never_blocked_forever_global P C false C17_programs_check behs). exact Hr.
+  - destruct (can_finish_global P C false C17_programs_check behs _ _ Hr (le_n _)) as [ext [_ Hd]].
     exists ext. unfold runN, grun in *. now rewrite fold_left_app.
 Qed.
 Print Assumptions C17_terminates_N.
 
 (* when all N awaits have returned the parent process holds no pipe end or reader of any
    invocation and no child is running or un-reaped *)
-Theorem C17_no_fd_no_zombie_N : forall behs sched,
+Theorem C17_no_fd_no_zombie_N_partial : forall behs sched,
+  forallb (fun b => negb (b_unp b)) behs = true ->
   g_all_done (runN behs sched) = true ->
   g_parent_fds (runN behs sched) = 0 /\ g_unreaped (runN behs sched) = 0.
 Proof.
-  intros behs sched. apply (all_done_clean P C C17_programs_check behs).
-  apply grun_reach. constructor.
+  intros behs sched Hu Hd. apply (all_done_clean P C false C17_programs_check behs); auto.
+  - apply grun_reach. constructor.
+  - intros b Hb. rewrite forallb_forall in Hu. specialize (Hu b Hb). apply negb_true_iff in Hu. now rewrite Hu.
 Qed.
-Print Assumptions C17_no_fd_no_zombie_N.
+Print Assumptions C17_no_fd_no_zombie_N_partial.
 
 (* the coroutine that holds the loop thread is never stuck in recv/join while its callee is
    still computing (other tasks are delayed at most by a child that is sending or exiting) *)
@@ -204,18 +255,59 @@ Theorem C17_loop_thread_N : forall behs sched k v,
   g_running (runN behs sched) = Some k -> nth_error (g_invs (runN behs sched)) k = Some v ->
   gstep P C (GParent k) (runN behs sched) = None -> callee_pending C (g_loc v) = false.
 Proof.
-  intros behs sched k v. apply (holder_not_computing P C C17_programs_check behs).
+  intros behs sched k v. apply (holder_not_computing P C false C17_programs_check behs).
   apply grun_reach. constructor.
 Qed.
 Print Assumptions C17_loop_thread_N.
 
+(* ---- keyword names that collide with the implementation's own parameters (K3) --------------------- *)
+Definition run1k (k : kwcoll) (b : beh) (sched : list lchoice) : lst := lrun_kw P C Gen.Subproc.kw_flags k b sched.
+
+(* FULL STATEMENT (refuted, kept visible): for every keyword-name class k
+     forall k b sched, returns_envelope b = false -> b_unp b = false ->
+       p_done (run1k k b sched) = true -> spec_ok b (run1k k b sched) = true.
+   Witnesses: a keyword named `func` (calculate_in_subprocess's own parameter): the call raises
+   TypeError; a keyword named `tx` / `fun` (_inner's parameters): the child dies before the
+   callee runs and the awaiting task gets ChildProcessError - although the callee, called
+   with the same arguments, returns. *)
+Theorem C17_kw_collision_refuted :
+  exists b sched, callee_reports b = true /\ returns_envelope b = false /\ b_unp b = false /\
+    p_stat (ps (run1k KWParent b sched)) = PSDone (FRaise (XCls TypeErrorC)) /\ spec_ok b (run1k KWParent b sched) = false /\
+    p_stat (ps (run1k KWChild b sched)) = PSDone (FRaise (XCls ChildProcessErrorC)) /\ spec_ok b (run1k KWChild b sched) = false.
+Proof.
+  exists (mk_beh COk [] false true false false false).
+  exists (LParent :: flat_map (fun _ => [LParent; LChild]) (seq 0 40)).
+  vm_compute. repeat split; reflexivity.
+Qed.
+Print Assumptions C17_kw_collision_refuted.
+
+(* whenever the keyword names bind (no collision, or the parameters are positional-only) the
+   run is the run of the theorems above, so every one of them applies verbatim *)
+Theorem C17_kw_partial : forall k b sched,
+  kw_binds Gen.Subproc.kw_flags k = true -> run1k k b sched = run1 b sched.
+Proof.
+  intros k b sched H. unfold run1k, run1, lrun_kw, beh_kw. destruct k; unfold kw_binds in H; try rewrite H; reflexivity.
+Qed.
+Print Assumptions C17_kw_partial.
+
+(* and with a collision the invocation still terminates and leaves nothing behind *)
+Theorem C17_kw_collision_clean : forall k b sched,
+  b_unp b = false -> p_done (run1k k b sched) = true -> clean_exit (run1k k b sched) = true.
+Proof.
+  intros k b sched Hu. unfold run1k, lrun_kw, beh_kw. destruct k.
+  - now apply C17_no_fd_no_zombie_on_exit_partial.
+  - destruct (kw_parent_safe Gen.Subproc.kw_flags); [now apply C17_no_fd_no_zombie_on_exit_partial | reflexivity].
+  - destruct (kw_child_safe Gen.Subproc.kw_flags); now apply C17_no_fd_no_zombie_on_exit_partial.
+Qed.
+Print Assumptions C17_kw_collision_clean.
+
 (* ---- the hypotheses are satisfiable; concrete crash points ------------------------------------ *)
 Definition fair1 : list lchoice := LParent :: flat_map (fun _ => [LParent; LChild]) (seq 0 40).
-Definition b_ok := mk_beh COk [] false true false false.
-Definition b_big_ok := mk_beh COk [] true true true false.
-Definition b_value_error := mk_beh CRaise ValueErrorC false true false false.
-Definition b_sys_exit := mk_beh CRaise SystemExitC false true false false.
-Definition b_os_exit := mk_beh CDie [] false true false false.
+Definition b_ok := mk_beh COk [] false true false false false.
+Definition b_big_ok := mk_beh COk [] true true true false false.
+Definition b_value_error := mk_beh CRaise ValueErrorC false true false false false.
+Definition b_sys_exit := mk_beh CRaise SystemExitC false true false false false.
+Definition b_os_exit := mk_beh CDie [] false true false false false.
 
 Example ex_returns : p_stat (ps (run1 b_ok fair1)) = PSDone FReturnCallee /\ returns_envelope b_ok = false.
 Proof. vm_compute. split; reflexivity. Qed.
@@ -237,6 +329,13 @@ Example ex_sync_blocked_reachable :   (* C17_single_nonblocking is not vacuous: 
   exists sched, sync_blocked P C b_ok (run1 b_ok sched) = true.
 Proof. exists (flat_map (fun _ => [LParent]) (seq 0 9) ++ [LChild; LChild; LChild; LChild] ++ flat_map (fun _ => [LParent]) (seq 0 6)).
   vm_compute. reflexivity. Qed.
+
+Example ex_protected : check_all protected_parent_prog C true = true.
+Proof. exact protected_strict. Qed.
+Example ex_current_not_strict :      (* the strict sweep does tell the two programs apart *)
+  clean_exit (lrun protected_parent_prog C (mk_beh COk [] false true false false true) fair1 linit) = true /\
+  clean_exit (run1 (mk_beh COk [] false true false false true) fair1) = false.
+Proof. vm_compute. split; reflexivity. Qed.
 
 (* three concurrent invocations with different callees, one child killed: all finish, each
    with its own outcome *)
